@@ -11,6 +11,7 @@ CONSTANTS
   Required = {"temp","active","inactive","native","binned"}
   Optional = {"cond"}
   LocalQs = {"cond","temp"}
+  Ordered = FALSE
   Export = FALSE
 INVARIANT ReportsEveryStatistic
 INVARIANT EveryStatisticIsCombined
